@@ -3,6 +3,7 @@ package main
 import (
 	"fmt"
 	"math/rand"
+	"strings"
 
 	. "github.com/reeflective/readline/verifx/internal/sess"
 )
@@ -64,7 +65,27 @@ func init() {
 			}
 			meta := map[string]string{"buf": buf, "pos": fmt.Sprint(pos), "count": fmt.Sprint(count)}
 			var keys []string
-			switch r.Intn(5) {
+			switch r.Intn(6) {
+			case 5: // more kills than the ring has slots (ten), each from a fresh state: yank gives the most recent
+				cmd := killCmds[r.Intn(len(killCmds))]
+				n := 11 + r.Intn(5)
+				meta["kind"], meta["cmd"], meta["n"] = "ring", cmd, fmt.Sprint(n)
+				sp.Inject = nil
+				sp.Binds = append(sp.Binds, Bind{Seq: `\C-x\C-za`, Cmd: cmd})
+				for i := 0; i < n; i++ {
+					word := fmt.Sprintf("w%dx", i)
+					line, pos := word+" tail", 0
+					if strings.Contains(cmd, "backward") || strings.Contains(cmd, "rubout") || cmd == "unix-line-discard" {
+						line, pos = "head "+word, len("head "+word)
+					}
+					sp.Inject = append(sp.Inject, Inject{Seq: fmt.Sprintf(`\C-x\C-y%c`, 'a'+i), Line: line, Pos: pos})
+					keys = append(keys, fmt.Sprintf("\x18\x19%c", 'a'+i), "\x18\x1aa")
+				}
+				sp.Inject = append(sp.Inject, Inject{Seq: `\C-x\C-yz`, Line: "", Pos: 0})
+				keys = append(keys, "\x18\x19z", "\x18\x1ab")
+				meta["probe"] = fmt.Sprint(len(keys) - 1)
+				sp.Chunks = hexChunks(keys)
+				return Case{Specs: []Spec{sp}, Class: "ring/" + cmd, Meta: meta}
 			case 0: // vi: delete-character then put-before
 				sp.Mode = "vi"
 				meta["kind"] = "vi-x-P"
@@ -119,6 +140,31 @@ func init() {
 			if len(tr.Waits) <= probe+1 {
 				return nil
 			}
+			if c.Meta["kind"] == "ring" {
+				// Waits[2i+2] is the state after kill i (its kill buffer must be what that kill removed);
+				// the final yank into an empty line must give the last one
+				var n int
+				fmt.Sscan(c.Meta["n"], &n)
+				if len(tr.Waits) < 2*n+3 {
+					return nil
+				}
+				var last string
+				for i := 0; i < n; i++ {
+					before, after := tr.Waits[2*i+1], tr.Waits[2*i+2]
+					if before.Line == after.Line {
+						continue
+					}
+					stat("ring-kill")
+					if len(removedBy([]rune(before.Line), []rune(after.Line), []rune(after.Kill))) == 0 {
+						return []Finding{{"C16", "kill-buffer-differs/ring/" + c.Meta["cmd"], fmt.Sprintf("kill %d of %d: %q -> %q, kill buffer %q", i+1, n, before.Line, after.Line, after.Kill), c}}
+					}
+					last = after.Kill
+				}
+				if final := tr.Waits[2*n+2].Line; last != "" && final != last {
+					return []Finding{{"C16", "yank-is-not-most-recent-kill/ring/" + c.Meta["cmd"], fmt.Sprintf("after %d kills the last removed %q, yank into an empty line gives %q", n, last, final), c}}
+				}
+				return nil
+			}
 			buf := []rune(c.Meta["buf"])
 			afterKill, afterYank := tr.Waits[probe], tr.Waits[probe+1]
 			if afterKill.Line == string(buf) {
@@ -128,6 +174,9 @@ func init() {
 			if c.Meta["count"] != "0" {
 				sig += "/count"
 			}
+			if c.Meta["kind"] == "vi-x-P" && strings.Contains(afterKill.Kill, "\n") {
+				sig += "/newline" // what was deleted ends a line: put-before puts it back line-wise
+			}
 			var fs []Finding
 			if len(removedBy(buf, []rune(afterKill.Line), []rune(afterKill.Kill))) == 0 {
 				fs = append(fs, Finding{"C16", "kill-buffer-differs/" + sig, fmt.Sprintf("%q@%s -> %q, kill buffer %q", string(buf), c.Meta["pos"], afterKill.Line, afterKill.Kill), c})
@@ -135,7 +184,8 @@ func init() {
 			// "yanking at the same point": the cursor is where the text was cut out (in vi command
 			// mode deleting the last character forces the cursor off that point: not this property's case)
 			samePoint := false
-			for _, i := range cutPoints(buf, []rune(afterKill.Line)) {
+			// (among the places where the text can have been cut out, only those that removed what the kill buffer holds)
+			for _, i := range removedBy(buf, []rune(afterKill.Line), []rune(afterKill.Kill)) {
 				if afterKill.Pos == i {
 					samePoint = true
 				}
